@@ -6,6 +6,7 @@ CONSTANTS
   MaxSerial = 3
   MaxNow = 0
   GenDepth = 0
+  Stream = FALSE
 INIT Init
 NEXT Next
 VIEW View
